@@ -93,6 +93,7 @@ func soGetChild() (*soChild, error) {
 	cmd := exec.Command(bin)
 	cmd.Dir = wd
 	cmd.Env = append(os.Environ(), "DESYNC_VERIF_STOREOPTS=1", "HOME=/nonexistent-home")
+	cmd.Env = append(cmd.Env, soRemoteEnv(wd)...) // storeopts_more.go: sftp / gs index stores can be constructed without a network
 	in, _ := cmd.StdinPipe()
 	out, _ := cmd.StdoutPipe()
 	if err := cmd.Start(); err != nil {
@@ -368,6 +369,7 @@ func implSoIndex(line string) string {
 			defer os.RemoveAll(d)
 		}
 	}
+	defer soPrepareRemoteIndex(a)() // storeopts_more.go: an SFTP store wants its directory to exist
 	m, raw := soAsk("index " + hexs("{}") + " " + hexs(loc))
 	if m == nil {
 		return raw
@@ -387,7 +389,8 @@ func implSoIndex(line string) string {
 	case strings.Contains(loc, "\\"):
 		key = loc[:strings.LastIndex(loc, "\\")]
 	}
-	backend := map[string]string{"desync.LocalIndexStore": "local", "*desync.RemoteHTTPIndex": "http"}[m["type"]]
+	backend := map[string]string{"desync.LocalIndexStore": "local", "*desync.RemoteHTTPIndex": "http", "desync.S3IndexStore": "s3",
+		"*desync.SFTPIndexStore": "sftp", "desync.GCIndexStore": "gcs"}[m["type"]]
 	store := string(unhx(m["store"]))
 	dir := ""
 	switch backend {
@@ -396,7 +399,7 @@ func implSoIndex(line string) string {
 		if dir == "" {
 			dir = "/"
 		}
-	case "http": // the store's URL is scheme://host + directory + "/"
+	case "http", "s3", "sftp", "gcs": // the store's URL is scheme://host + directory [+ "/"]
 		if i := strings.Index(store, "://"); i >= 0 {
 			rest := store[i+3:]
 			if q := strings.IndexAny(rest, "?#"); q >= 0 {
@@ -444,6 +447,9 @@ func implSoSrv(line string) string {
 	os.MkdirAll(storeDir, 0755)
 	os.MkdirAll(otherDir, 0755)
 	cfgsv, cfgu := a["cfgsv"] == "1", a["cfgu"] == "1"
+	// up=http (index-server): the served store is a remote one, an HTTP index store whose files are those of storeDir
+	storeArg, upstream := soServedStore(a, dir, storeDir) // storeopts_more.go
+	defer upstream.Close()
 	// the configuration file: the entry of the served store, and (other=1) an entry for another location saying the
 	// opposite; ts=1 writes the store's key with a trailing slash, glob=1 as a pattern
 	key := storeDir
@@ -499,7 +505,7 @@ func implSoSrv(line string) string {
 	if chunkKind {
 		cmdName = "chunk-server"
 	}
-	args := []string{"--config", conf, cmdName, "-s", storeDir, "-l", addr}
+	args := []string{"--config", conf, cmdName, "-s", storeArg, "-l", addr}
 	if chunkKind && a["sf"] == "1" { // the stores come from a store file
 		sf := filepath.Join(dir, "stores.json")
 		b, _ := json.Marshal(map[string]any{"stores": []string{storeDir}})
@@ -582,10 +588,14 @@ func implSoSrv(line string) string {
 	}
 	common := fmt.Sprintf("auth=%s anon=%s", hx([]byte(auth)), b01(anon))
 	if !chunkKind {
-		if code, _ := httpDo("GET", base+getIdx, hdr, nil); code != 200 {
-			return common + fmt.Sprintf(" present-index-status=%d", code)
-		}
+		gcode, _ := httpDo("GET", base+getIdx, hdr, nil)
 		code, _ := httpDo("PUT", base+putIdx, hdr, idxBytes)
+		if what := upstream.Stray(); what != "" { // a request of the server to its upstream that is not below the configured store
+			return common + " " + what
+		}
+		if gcode != 200 {
+			return common + fmt.Sprintf(" present-index-status=%d", gcode)
+		}
 		_, statErr := os.Stat(filepath.Join(storeDir, "new.caibx"))
 		if (code == 200) != (statErr == nil) {
 			return common + fmt.Sprintf(" put-status=%d but stored=%v", code, statErr == nil)
@@ -703,9 +713,12 @@ func storeOptsServers(cfg Config, rep *Report, m *Model, rng *rand.Rand) {
 		tri := func() string { return soPick(rng, "-", "-", "0", "1", "1") }
 		line := fmt.Sprintf("so.srv kind=%s fauth=%s eauth=%s w=%s svw=%s svr=%s u=%s cfgsv=%d cfgu=%d other=%d ts=%d glob=%d short=%d sf=%d seed=%d",
 			kind, fauth, eauth, tri(), tri(), tri(), tri(), rng.Intn(2), rng.Intn(2), rng.Intn(2), rng.Intn(2), rng.Intn(4)/3, rng.Intn(2), rng.Intn(3)/2, rng.Int63n(1<<40))
+		if kind == "index" { // the served index store: a directory, or a remote (HTTP) store given with or without a trailing slash
+			line += fmt.Sprintf(" up=%s uts=%d", soPick(rng, "-", "http", "http"), rng.Intn(2))
+		}
 		_, a := parseCase(line)
 		rep.Count(line, true, "so.srv:"+kind, "so.srv:auth-flag="+b01(a["fauth"] != "-" && a["fauth"] != "")+",env="+b01(a["eauth"] != "-" && a["eauth"] != ""),
-			"so.srv:w="+a["w"], "so.srv:svw="+a["svw"]+",svr="+a["svr"], "so.srv:u="+a["u"]+",cfgu="+a["cfgu"])
+			"so.srv:w="+a["w"], "so.srv:svw="+a["svw"]+",svr="+a["svr"], "so.srv:u="+a["u"]+",cfgu="+a["cfgu"], "so.srv:up="+a["up"]+",uts="+a["uts"])
 		rep.Compare(m, line, implSoSrv, nil)
 	}
 }
@@ -882,6 +895,7 @@ func storeOptsStores(cfg Config, rep *Report, m *Model, rng *rand.Rand) {
 		rep.Count(line, strings.HasPrefix(res, "key="), "so.index:"+strings.Fields(res + " ?")[0][:3]+":"+sname)
 		rep.Compare(m, line, implSoIndex, nil)
 	}
+	storeOptsSymlinks(cfg, rep, m, rng, work) // storeopts_more.go: locations and patterns that pass through symbolic links
 }
 
 // storeOptsC03: which configuration entry applies to a location, and what the store is made with
